@@ -123,13 +123,31 @@ class Engine(Interp, InterpExpr, InterpComp, InterpStmt, InterpCall, InterpBuilt
         prefix = {ListV: 'L.', SetV: 'S.', DictV: 'D.', RecV: 'R.'}.get(type(v))
         if prefix is None:
             raise Unsupported('contents() of a non-container')
-        return ('contents', v.ref, prefix)
+        # the heap arrays that hold the contents of a container of this element type (a dict keyed by an enum and a dict
+        # keyed by str are never the same object: their contents live in different arrays)
+        names = None
+        if isinstance(v, DictV):
+            names = (self.dict_has(v)[0], self.dict_val(v)[0])
+        elif isinstance(v, SetV) and v.ety != ANY:
+            names = (self.set_arr(v)[0],)
+        elif isinstance(v, ListV):
+            names = ('L.len', self.list_data(v)[0])
+        return ('contents', v.ref, prefix, names)
 
     def bi_whole(self, args, kw, line):
         return ('array', args[0])
 
     def bi_everything(self, args, kw, line):
         return ('array', '')
+
+    def bi_everything_but(self, args, kw, line):
+        """everything_but('F:state:', 'F:supvisors:', ...): any heap array may change except those whose name starts with
+        one of the given prefixes (frames of call-outs that are only known not to touch a few fields)"""
+        prefixes = tuple(a for a in args if isinstance(a, str))
+        items = tuple(a for a in args if isinstance(a, tuple) and a and a[0] in ('contents', 'field'))
+        if len(prefixes) + len(items) != len(args):
+            raise Unsupported('everything_but expects array-name prefixes, contents(x) or field(o, name) items')
+        return ('array_except', prefixes, items)
 
     def bi_contents_where(self, args, kw, line):
         """contents_where(lambda r: <Bool>, kind): the contents of every container r of that kind ('list', 'set', 'dict',
@@ -200,11 +218,22 @@ class Engine(Interp, InterpExpr, InterpComp, InterpStmt, InterpCall, InterpBuilt
                 return 'all'
             refs, preds = [], []
             for it in items:
+                if it[0] == 'array_except':
+                    if any(name.startswith(p) for p in it[1]):
+                        continue
+                    # objects whose contents / field are protected although the rest of the array may change
+                    prot = [x[1] for x in it[2]
+                            if (x[0] == 'contents' and name[:2] == x[2] and (x[3] is None or name in x[3]))
+                            or (x[0] == 'field' and name.startswith(f'F:{x[2]}:'))]
+                    if not prot:
+                        return 'all'
+                    preds.append(lambda r, prot=prot: z3.And([r != q for q in prot]))
+                    continue
                 if it[0] == 'array' and name.startswith(it[1]):
                     return 'all'
                 if it[0] == 'field' and name.startswith(f'F:{it[2]}:'):
                     refs.append(it[1])
-                if it[0] == 'contents' and name[:2] == it[2]:
+                if it[0] == 'contents' and name[:2] == it[2] and (len(it) < 4 or it[3] is None or name in it[3]):
                     refs.append(it[1])
                 if it[0] == 'pred' and name[:2] == it[2]:
                     preds.append(it[1])
@@ -227,16 +256,23 @@ class Engine(Interp, InterpExpr, InterpComp, InterpStmt, InterpCall, InterpBuilt
         vars_ = self.bind_params(fi, args, kwargs, line)
         bindings = dict(vars_)
         tag = f'{con.target.split(":")[1]}@{self.cur_fn}:{line}'
-        for cl in con.pre:
-            t = self.eval_clause(cl, con.module, bindings)
-            self.run.oblige(f'call-pre:{cl.name}/{tag}', 'call-pre', t, line)
-            self.run.assume(t)
+        others = self.reg.other_facets(con)
+        for c2 in [con] + others:
+            for cl in c2.pre:
+                t = self.eval_clause(cl, c2.module, bindings)
+                self.run.oblige(f'call-pre:{cl.name}/{tag}', 'call-pre', t, line)
+                self.run.assume(t)
         heap_before = self.heap.snapshot()
         mods = self.eval_modifies(con, bindings)
         if not con.pure:
             self.heap.havoc(self.allowed_fn(mods))
-        if con.effect:
-            self.effects.append((con.effect, [vars_[a.arg] for a in fi.node.args.args if a.arg != 'self']))
+        logged = set()
+        for c2 in [con] + others:
+            if c2.effect and c2.effect not in logged:
+                logged.add(c2.effect)
+                self.effects.append((c2.effect, [vars_[a.arg] for a in fi.node.args.args if a.arg != 'self']))
+            if c2 is not con:
+                self.by_contract.add(c2.target)
         if isinstance(con.returns, (tuple, list)):
             # union-typed result: `returns = ('bool', 'List[bool]')`; the call forks on the alternative returned
             alts = [self.ts.ann_to_type(ast.parse(r, mode='eval').body, fi.module) for r in con.returns]
@@ -254,22 +290,30 @@ class Engine(Interp, InterpExpr, InterpComp, InterpStmt, InterpCall, InterpBuilt
         bindings['old'] = OldNS(vars_, heap_before)
         # exceptional outcomes
         if self.mode == EXEC:
-            for k, exc_cls in enumerate(con.raises):
+            # an exception escapes only if every contract of the function allows it
+            may_raise = [e for e in con.raises if all(e in c2.raises for c2 in others)]
+            for k, exc_cls in enumerate(may_raise):
                 b = self.run.fresh(f'raises_{exc_cls}', B)
                 if self.run.decide(b):
                     ev = ExcV(exc_cls, (self.fresh_value('exc_code', INT), self.opaque_str()))
                     bindings['exc'] = ev
-                    for cl in con.exc.get(exc_cls, []):
-                        if not self._effect_clause(cl):
-                            self.run.assume(self.eval_clause(cl, con.module, bindings))
+                    for c2 in [con] + others:
+                        for cl in c2.exc.get(exc_cls, []):
+                            if not self._effect_clause(cl):
+                                t = self.eval_callee_clause(cl, c2.module, bindings)
+                                if t is not None:
+                                    self.run.assume(t)
                     raise PyRaise(ev, line)
         if rty == ANY:
             raise Unsupported(f'contract {con.target}: return type unknown (add returns=)')
         result = self.fresh_value('ret_' + fi.name, rty)
         bindings['result'] = result
-        for cl in con.post:
-            if not self._effect_clause(cl):
-                self.run.assume(self.eval_clause(cl, con.module, bindings))
+        for c2 in [con] + others:
+            for cl in c2.post:
+                if not self._effect_clause(cl):
+                    t = self.eval_callee_clause(cl, c2.module, bindings)
+                    if t is not None:
+                        self.run.assume(t)
         return result
 
     @staticmethod
@@ -279,6 +323,19 @@ class Engine(Interp, InterpExpr, InterpComp, InterpStmt, InterpCall, InterpBuilt
         callee's own `effect=` entry)"""
         n = cl.name
         return n.startswith('post_effect') or (n.startswith('exc_') and n.split('_', 2)[-1].startswith('effect'))
+
+    def eval_callee_clause(self, cl, module, bindings):
+        """post / exc clause of a callee, assumed at a call site.  Clauses speaking about the ghost effect log
+        (no_effect, count_effects, effect_at, effects) are relative to the callee's own entry and cannot be read against
+        the caller's log: they are not assumed (sound: less is assumed); the callee's own `effect=` entry is what the
+        caller sees."""
+        self.callee_clause = getattr(self, 'callee_clause', 0) + 1
+        try:
+            return self.eval_clause(cl, module, bindings)
+        except EffectsInCalleeClause:
+            return None
+        finally:
+            self.callee_clause -= 1
 
     def call_ext_contract(self, con, args, kwargs, line):
         self.externals_used.add(con.target)
@@ -357,9 +414,7 @@ def load_contract_module(ct, reg, path, modname):
                     if d.func.id == 'contract' and con.attrs.get('loops_only'):
                         reg.loop_contracts[target] = con
                     elif d.func.id == 'contract':
-                        if target in reg.contracts:     # a silent override would change what other proofs assume
-                            reg.duplicates.append((target, reg.contracts[target].module, modname))
-                        reg.contracts[target] = con
+                        reg.add_contract(con)
                     else:
                         reg.ext_contracts[target] = con
         elif isinstance(node, ast.Assign) and isinstance(node.targets[0], ast.Name):
